@@ -87,7 +87,7 @@ impl GenCfg {
 fn decoration(r: &mut Rng, out: &mut Vec<u8>) {
     match r.below(8) {
         4 => out.extend_from_slice(b"<?xml-stylesheet type=\"text/xsl\" href=\"a.xsl\"?>"),
-        5 => out.extend_from_slice(b"<!-- a -- b -> c -->"),
+        5 => out.extend_from_slice(b"<!-- a - b -> c -->"),
         6 => out.extend_from_slice(b"<!---->"),
         7 => out.extend_from_slice(b"<?x?>"),
         0 => out.extend_from_slice(b"<!-- c -->"),
